@@ -65,4 +65,53 @@ theorem residuals_sumSq_unitary {n : Nat} (T U : Mat n n) (hU : IsoM U) (hT : Is
   rw [residuals_sumSq T U hU, hsInner_eq T T, hs_self_of_iso hT, natCast_GQ]
   simp; ring
 
+/-! ### the residual vector vanishes exactly for `U = T` (not up to a phase) -/
+
+theorem hs_self_im {n m : Nat} (D : Matrix (Fin n) (Fin m) GQ) : (hs D D).im = 0 := by
+  unfold hs
+  have him : ∀ (s : Finset (Fin m)) (f : Fin m → GQ), (∀ i, (f i).im = 0) → (∑ i ∈ s, f i).im = 0 := by
+    intro s f hf
+    classical
+    induction s using Finset.induction_on with
+    | empty => rfl
+    | insert a s ha ih => rw [Finset.sum_insert ha, GQ.add_im, ih, hf a, add_zero]
+  simp only [Matrix.trace, Matrix.diag, Matrix.mul_apply, Matrix.conjTranspose_apply]
+  apply him
+  intro j
+  have him' : ∀ (s : Finset (Fin n)) (f : Fin n → GQ), (∀ i, (f i).im = 0) → (∑ i ∈ s, f i).im = 0 := by
+    intro s f hf
+    classical
+    induction s using Finset.induction_on with
+    | empty => rfl
+    | insert a s ha ih => rw [Finset.sum_insert ha, GQ.add_im, ih, hf a, add_zero]
+  apply him'
+  intro i
+  simp only [GQ.star_def, GQ.mul_im, GQ.conj_re, GQ.conj_im]
+  ring
+
+theorem residuals_zero_iff {n : Nat} (T U : Mat n n) (hU : IsoM U) (hT : IsoM T) :
+    sumSq (residuals T U) = 0 ↔ ∀ i j, U i j = T i j := by
+  constructor
+  · intro h
+    unfold residuals at h
+    rw [sumSq_reIm] at h
+    set M := (Mat.sub (Mat.mul U (Mat.dagger T)) (Mat.one n)).toM with hM
+    have h0 : hs M M = 0 := by
+      ext
+      · exact h
+      · exact hs_self_im M
+    have hM0 : M = 0 := definite_GQ M h0
+    rw [hM, Mat.sub_toM, Mat.mul_toM, Mat.dagger_toM, Mat.one_toM, sub_eq_zero] at hM0
+    -- U T† = 1 and T† T = 1 give U = T
+    have hUT : U.toM = T.toM := by
+      calc U.toM = U.toM * (T.toMᴴ * T.toM) := by rw [hT.toM, Matrix.mul_one]
+        _ = (U.toM * T.toMᴴ) * T.toM := by rw [Matrix.mul_assoc]
+        _ = T.toM := by rw [hM0, Matrix.one_mul]
+    intro i j
+    exact congrFun (congrFun hUT i) j
+  · intro h
+    have hUT : U = T := by funext i j; exact h i j
+    rw [residuals_sumSq_unitary T U hU hT, hUT, hsInner_eq, hs_self_of_iso hT, natCast_GQ]
+    simp
+
 end BqVerif.Cost
